@@ -19,7 +19,7 @@ fn scores<G: NodeIndexable>(g: G, m: impl IntoIterator<Item = (G::NodeId, i64)>)
     line("scores", &v.iter().flat_map(|(a, b)| vec![*a, *b]).collect::<Vec<_>>())
 }
 
-fn q_cost<G>(g: G, q: &GOp) -> Option<Vec<String>>
+pub fn q_cost<G>(g: G, q: &GOp) -> Option<Vec<String>>
 where G: GraphRef + IntoEdges + IntoNodeIdentifiers + Visitable + NodeIndexable + NodeCount + Data<EdgeWeight = i64>, G::NodeId: Eq + Hash {
     let a = &q.1;
     let n = |i: i64| g.from_index(i as usize);
@@ -55,7 +55,7 @@ where G: GraphRef + IntoEdges + IntoNodeIdentifiers + Visitable + NodeIndexable 
     })
 }
 
-fn q_float<G>(g: G, q: &GOp) -> Option<Vec<String>>
+pub fn q_float<G>(g: G, q: &GOp) -> Option<Vec<String>>
 where G: GraphRef + IntoEdges + IntoNodeIdentifiers + Visitable + NodeIndexable + NodeCount + Data<EdgeWeight = f64> {
     let a = &q.1;
     let n = |i: i64| g.from_index(i as usize);
@@ -74,7 +74,7 @@ where G: GraphRef + IntoEdges + IntoNodeIdentifiers + Visitable + NodeIndexable 
     })
 }
 
-fn q_fw<G>(g: G, q: &GOp) -> Option<Vec<String>>
+pub fn q_fw<G>(g: G, q: &GOp) -> Option<Vec<String>>
 where G: GraphRef + NodeCompactIndexable + IntoEdgeReferences + IntoNodeIdentifiers + GraphProp + Data<EdgeWeight = i64>, G::NodeId: Eq + Hash {
     let n = g.node_count();
     let flat = |m: &hashbrown::HashMap<(G::NodeId, G::NodeId), i32>| -> Vec<i64> {
@@ -92,7 +92,7 @@ where G: GraphRef + NodeCompactIndexable + IntoEdgeReferences + IntoNodeIdentifi
     })
 }
 
-fn q_mst<G>(g: G, q: &GOp) -> Option<Vec<String>>
+pub fn q_mst<G>(g: G, q: &GOp) -> Option<Vec<String>>
 where G: GraphRef + petgraph::visit::IntoNodeReferences + IntoEdgeReferences + IntoEdges + NodeIndexable + Data<EdgeWeight = i64>, G::NodeWeight: Clone + WAsI64 {
     use petgraph::data::Element;
     let collect = |it: &mut dyn Iterator<Item = Element<G::NodeWeight, i64>>| -> Vec<String> {
